@@ -326,21 +326,28 @@ func (d Decimal) Float(f *big.Float) *big.Float {
 		f.SetPrec(128)
 	}
 
+	// Hold the significand exactly so that the result is only rounded once,
+	// whatever precision f has.
+	m := f
+	if f.Prec() < 128 {
+		m = new(big.Float).SetPrec(128)
+	}
+
 	if sig[1] == 0 {
-		f.SetUint64(sig[0])
+		m.SetUint64(sig[0])
 	} else {
 		bigsig := new(big.Int).SetUint64(sig[1])
 		bigsig.Lsh(bigsig, 64).Or(bigsig, new(big.Int).SetUint64(sig[0]))
 
-		f.SetInt(bigsig)
+		m.SetInt(bigsig)
 	}
 
 	if d.Signbit() {
-		f.Neg(f)
+		m.Neg(m)
 	}
 
 	if exp == 0 {
-		return f
+		return f.Set(m)
 	}
 
 	var bigexp *big.Int
@@ -353,9 +360,9 @@ func (d Decimal) Float(f *big.Float) *big.Float {
 	bigexp.Exp(big.NewInt(10), bigexp, nil)
 
 	if exp > 0 {
-		f.Mul(f, new(big.Float).SetInt(bigexp))
+		f.Mul(m, new(big.Float).SetInt(bigexp))
 	} else {
-		f.Quo(f, new(big.Float).SetInt(bigexp))
+		f.Quo(m, new(big.Float).SetInt(bigexp))
 	}
 
 	return f
